@@ -351,3 +351,134 @@ func outcomeSet(os []outcome) []string {
 	sort.Strings(out)
 	return out
 }
+
+// Trace: what happens from the entry of a function until the event chain comes to rest.
+type Trace struct {
+	Events []*Event
+	Emits  []string // events emitted on the way, in order
+	End    string   // "wait", "refuse", "fail", "resume", "cycle", "other"
+	Wait   string   // event at which the chain rests (last emitted; "" if none)
+	Err    string
+}
+
+// Traces follows tail emits through the handler table until a wait/refusal. followResume:
+// the event to re-enter when a path ends in Resume ("" = stop there).
+func (eg *EventGraph) Traces(fn *ssa.Function, followResume string) []Trace {
+	var out []Trace
+	const roundLoc = "GS.Status.Round"
+	// feasibility across handlers: the street (Status.Round) is tracked along the chain — a
+	// path that tests Round == "preflop" cannot follow one that has just stored or assumed "flop"
+	type rstate struct {
+		known string          // constant last stored into Status.Round ("" = not stored on this chain)
+		yes   string          // assumed equal to (from a branch), when not stored
+		no    map[string]bool // assumed different from
+	}
+	feasible := func(rs rstate, o outcome) (rstate, bool) {
+		ns := rstate{known: rs.known, yes: rs.yes, no: map[string]bool{}}
+		for k := range rs.no {
+			ns.no[k] = true
+		}
+		for _, ps := range o.Chain {
+			ci := 0
+			step := func(upto int) bool {
+				for ci < len(ps.Conds) && ps.Conds[ci].NEv <= upto {
+					cd := ps.Conds[ci]
+					ci++
+					if cd.V.K != KAtom || cd.V.At.Op != "is" {
+						continue
+					}
+					k := ""
+					if cd.V.At.L == roundLoc && isQuoted(cd.V.At.R) {
+						k = cd.V.At.R
+					} else if cd.V.At.R == roundLoc && isQuoted(cd.V.At.L) {
+						k = cd.V.At.L
+					} else {
+						continue
+					}
+					eq := !cd.V.Neg
+					cur := ns.known
+					if cur == "" {
+						cur = ns.yes
+					}
+					if cur != "" {
+						if (cur == k) != eq {
+							return false
+						}
+						continue
+					}
+					if eq {
+						if ns.no[k] {
+							return false
+						}
+						ns.yes = k
+					} else {
+						ns.no[k] = true
+					}
+				}
+				return true
+			}
+			for ei, e := range ps.Events {
+				if !step(ei) {
+					return ns, false
+				}
+				if e.Kind == "store" && e.Loc == roundLoc {
+					ns.known = e.Val.String()
+					ns.yes = ""
+					ns.no = map[string]bool{}
+				}
+			}
+			if !step(len(ps.Events) + 1) {
+				return ns, false
+			}
+		}
+		return ns, true
+	}
+	var walk func(f *ssa.Function, evs []*Event, emits []string, rs rstate, depth int)
+	walk = func(f *ssa.Function, evs []*Event, emits []string, rs rstate, depth int) {
+		if len(out) > 20000 {
+			return
+		}
+		for _, o := range eg.Outcomes(f) {
+			ns, ok := feasible(rs, o)
+			if !ok {
+				continue
+			}
+			e2 := append(append([]*Event(nil), evs...), o.Events()...)
+			last := ""
+			if len(emits) > 0 {
+				last = emits[len(emits)-1]
+			}
+			switch o.Kind {
+			case "emit":
+				em := append(append([]string(nil), emits...), o.Event)
+				h := eg.Handler[o.Event]
+				seen := 0
+				for _, x := range emits {
+					if x == o.Event {
+						seen++
+					}
+				}
+				if h == nil {
+					out = append(out, Trace{Events: e2, Emits: em, End: "wait", Wait: o.Event})
+				} else if seen > 0 || depth > 16 {
+					out = append(out, Trace{Events: e2, Emits: em, End: "cycle", Wait: o.Event})
+				} else {
+					walk(h, e2, em, ns, depth+1)
+				}
+			case "wait":
+				out = append(out, Trace{Events: e2, Emits: emits, End: "wait", Wait: last})
+			case "resume":
+				if followResume != "" && eg.Handler[followResume] != nil && depth < 16 {
+					em := append(append([]string(nil), emits...), followResume)
+					walk(eg.Handler[followResume], e2, em, ns, depth+1)
+				} else {
+					out = append(out, Trace{Events: e2, Emits: emits, End: "resume", Wait: last})
+				}
+			default:
+				out = append(out, Trace{Events: e2, Emits: emits, End: o.Kind, Wait: last, Err: o.Err})
+			}
+		}
+	}
+	walk(fn, nil, nil, rstate{no: map[string]bool{}}, 0)
+	return out
+}
